@@ -99,6 +99,10 @@ type relay struct {
 
 	enableDebugLogs *bool
 
+	// done is closed when the session this relay belongs to is over. Once that has happened
+	// nothing drains `output` any more, so frames must no longer be pushed into it.
+	done <-chan bool
+
 	// The following fields depend on a circular dependency between the relays in opposite directions
 	// so must be set explicitly after initialization.
 
@@ -356,7 +360,7 @@ func (r *relay) updateWindow(f *http2.WindowUpdateFrame) {
 	r.flowMu.Lock()
 	w := r.outputBuffer(f.StreamID)
 	w.windowSize += int(f.Increment)
-	w.emitEligibleFrames(r.output, &r.connectionWindowSize)
+	w.emitEligibleFrames(r.output, &r.connectionWindowSize, r.done)
 	r.flowMu.Unlock()
 }
 
@@ -385,7 +389,7 @@ func (r *relay) data(id uint32, data []byte, streamEnded bool) error {
 
 		r.flowMu.Lock()
 		w.enqueue(f)
-		w.emitEligibleFrames(r.output, &r.connectionWindowSize)
+		w.emitEligibleFrames(r.output, &r.connectionWindowSize, r.done)
 		r.flowMu.Unlock()
 
 		// Some protocols send empty data frames with END_STREAM so the check is done here at the end
@@ -464,14 +468,14 @@ func (r *relay) enqueueFrame(f queuedFrame) {
 	r.flowMu.Lock()
 	w := r.outputBuffer(f.StreamID())
 	w.enqueue(f)
-	w.emitEligibleFrames(r.output, &r.connectionWindowSize)
+	w.emitEligibleFrames(r.output, &r.connectionWindowSize, r.done)
 	r.flowMu.Unlock()
 }
 
 func (r *relay) sendQueuedFramesUnderWindowSize() {
 	r.flowMu.Lock()
 	for _, w := range r.outputBuffers {
-		w.emitEligibleFrames(r.output, &r.connectionWindowSize)
+		w.emitEligibleFrames(r.output, &r.connectionWindowSize, r.done)
 	}
 	r.flowMu.Unlock()
 }
@@ -551,13 +555,20 @@ type outputBuffer struct {
 // given connection window size. It updates the given connectionWindowSize if applicable.
 //
 // This is not thread-safe. The caller should be holding `relay.flowMu`.
-func (w *outputBuffer) emitEligibleFrames(output chan queuedFrame, connectionWindowSize *int) {
+//
+// `done` is closed when the session has ended; frames are dropped from then on instead of blocking
+// on an output channel that is no longer drained. A nil `done` never fires.
+func (w *outputBuffer) emitEligibleFrames(output chan queuedFrame, connectionWindowSize *int, done <-chan bool) {
 	for e := w.queue.Front(); e != nil; {
 		f := e.Value.(queuedFrame)
 		if f.flowControlSize() > *connectionWindowSize || f.flowControlSize() > w.windowSize {
 			break
 		}
-		output <- f
+		select {
+		case output <- f:
+		case <-done:
+			return
+		}
 
 		*connectionWindowSize -= f.flowControlSize()
 		w.windowSize -= f.flowControlSize()
